@@ -86,8 +86,8 @@ func (Gate) QueryClauses(f *schema.Field) []clause.Interface {
 
 type gateClause struct{ f *schema.Field }
 
-func (gateClause) Name() string                { return "" }
-func (gateClause) Build(clause.Builder)        {}
+func (gateClause) Name() string               { return "" }
+func (gateClause) Build(clause.Builder)       {}
 func (gateClause) MergeClause(*clause.Clause) {}
 func (g gateClause) ModifyStatement(stmt *gorm.Statement) {
 	if _, ok := stmt.Clauses["gate_enabled"]; !ok {
